@@ -743,7 +743,7 @@ class Abstraction:
         return i
 
 
-def doc_is_public(parent, m, empty_all_counts=True):
+def doc_is_public(parent, m):
     """The decision ladder as documented in the docstring of is_public (+ the documented module exception)."""
     if m.public is not None:
         return bool(m.public)
@@ -752,7 +752,7 @@ def doc_is_public(parent, m, empty_all_counts=True):
         return True
     if parent is not None and (not parent.is_alias) and parent.kind.value == "module":
         ex = parent.exports
-        if ex is not None and (empty_all_counts or len(ex) > 0):
+        if ex is not None:
             return nm in [str(e) for e in ex]
     special = nm.startswith("__") and nm.endswith("__")
     if nm.startswith("_") and not special:
@@ -771,7 +771,7 @@ def members_of(o):
     return {}
 
 
-def reference_reach(old_root, new_root, empty_all_counts=True):
+def reference_reach(old_root, new_root):
     """Authority: which old objects / (old,new) pairs are reachable from the roots through documented-public members and
     resolvable alias targets.  No seen_paths cut: every route counts.  Returns (old paths, new paths of counterparts)."""
     from _griffe.exceptions import AliasResolutionError, CyclicAliasError
@@ -807,7 +807,7 @@ def reference_reach(old_root, new_root, empty_all_counts=True):
         else:
             nm_ = members_of(n) if n is not None and not n.is_alias else {}
             for name, m in members_of(o).items():
-                if doc_is_public(o, m, empty_all_counts):
+                if doc_is_public(o, m):
                     todo.append(("head", m, nm_.get(name)))
     return old_paths, new_paths
 
@@ -870,8 +870,7 @@ def impl_diff(old, new):
 
 
 def model_case(ao, an):
-    cp = [[i, an.index[p]] for p, i in ao.index.items() if p in an.index]
-    return ["diff", ao.nodes, an.nodes, ao.root, an.root, cp]
+    return ["diff", ao.nodes, an.nodes, ao.root, an.root]
 
 
 def decode_model(res, ao, an, pnames_rev):
@@ -944,8 +943,8 @@ def run_cases(ctx, cases, tally):
     pubq, pubmeta = [], []
     for (c, status, ibs, ao, an, pr), r in zip(rows, res):
         mstatus, mbs, flags, log = decode_model(r, ao, an, pr)
-        wf, consistent, nocyc, exitc = flags
-        evaluate(ctx, c, status, ibs, mstatus, mbs, wf, consistent, exitc, ao, an, log, tally)
+        wf, exitc = flags
+        evaluate(ctx, c, status, ibs, mstatus, mbs, wf, exitc, ao, an, log, tally)
         # per-member is_public: model vs implementation vs documented ladder
         for ab in (ao, an):
             for i, o in enumerate(ab.objs):
@@ -968,7 +967,7 @@ def run_cases(ctx, cases, tally):
     return rows
 
 
-def evaluate(ctx, c, status, ibs, mstatus, mbs, wf, consistent, exitc, ao, an, log, tally):
+def evaluate(ctx, c, status, ibs, mstatus, mbs, wf, exitc, ao, an, log, tally):
     metas = c.metas
     classes = {m["class"] for m in metas}
     nontrivial = bool(metas) or any(n[2][0] == "alias" for n in ao.nodes)
@@ -978,7 +977,6 @@ def evaluate(ctx, c, status, ibs, mstatus, mbs, wf, consistent, exitc, ao, an, l
     ctx.observe("model_status", mstatus)
     ctx.observe("n_breakages", min(len(ibs), 8))
     ctx.observe("store_size", 10 * (len(ao.nodes) // 10))
-    ctx.observe("counterparts", ("consistent" if consistent else "inconsistent") + ":" + c.stream)
     for m in metas:
         ctx.observe("edit", m["edit"])
     for b in ibs:
@@ -991,7 +989,7 @@ def evaluate(ctx, c, status, ibs, mstatus, mbs, wf, consistent, exitc, ao, an, l
     if not wf:
         ctx.tie_failure("harness", "abstraction produced a store the model calls ill-formed", None, c.json)
     # ---- (C) correspondence
-    want = {"ok": "ok", "cyclic": "cyclic"}.get(status, status)
+    want = status
     if mstatus != want or (status == "ok" and mbs != ibs):
         ctx.tie_failure("correspondence", "breakages(model) vs find_breaking_changes",
                         {"model": [mstatus, mbs[:12]], "impl": [status, ibs[:12]]}, c.json)
@@ -999,24 +997,20 @@ def evaluate(ctx, c, status, ibs, mstatus, mbs, wf, consistent, exitc, ao, an, l
         ctx.tie_failure("correspondence", "check_exit(model) vs breakages", {"model_exit": exitc, "impl": [status, len(ibs)]}, c.json)
     # ---- direct evaluation of the property on the implementation
     if status == "cyclic":
-        has_cyc = any(n[2] == ["alias", ["cyc"]] for ab in (ao, an) for n in ab.nodes)
-        ctx.property_failure(c.json, "find_breaking_changes raised CyclicAliasError", finding="C11-F1" if has_cyc else None)
-        tally["cyclic_abort"] += 1
+        ctx.property_failure(c.json, "find_breaking_changes raised CyclicAliasError instead of skipping the cyclic re-export")
         return
     if status != "ok":
         ctx.property_failure(c.json, f"find_breaking_changes did not complete, or a report is not backed by its own values: {status}")
         return
     if any(n[2] == ["alias", ["unres"]] for n in ao.nodes + an.nodes):
         tally["unresolvable_survived"] += 1
+    if any(n[2] == ["alias", ["cyc"]] for n in ao.nodes + an.nodes):
+        tally["cyclic_survived"] += 1
     reach_old, reach_new = reference_reach(c.old, c.new)
-    reach_old_code, reach_new_code = reference_reach(c.old, c.new, empty_all_counts=False)
     # every reported object is publicly reachable by the documented ladder
     for k, path, prm in ibs:
-        ok = path in (reach_old if k == "OBJECT_REMOVED" else reach_new)
-        if not ok:
-            ok_code = path in (reach_old_code if k == "OBJECT_REMOVED" else reach_new_code)
-            ctx.property_failure(c.json, {"reported object is not publicly reachable": [k, path]}, finding="C11-F3" if ok_code else None)
-            ctx.observe("private_reported", "C11-F3" if ok_code else "UNEXPLAINED")
+        if path not in (reach_old if k == "OBJECT_REMOVED" else reach_new):
+            ctx.property_failure(c.json, {"reported object is not publicly reachable": [k, path]})
     if c.fo == c.fn and not c.overrides and ibs:
         ctx.property_failure(c.json, {"identical copy reported": ibs[:5]})
     if not metas:
@@ -1054,6 +1048,15 @@ def evaluate(ctx, c, status, ibs, mstatus, mbs, wf, consistent, exitc, ao, an, l
     all_private = True
     base_names = {b for _, d, _, _, _ in iter_defs(c.old_spec) if d["kind"] == "class" for b in d["bases"]}
     own_members = {p: {bound(x) for x in d["body"]} for _, d, p, _, _ in iter_defs(c.old_spec) if d["kind"] == "class"}
+
+    def still_provided(path):
+        """After removing a class's own member: does the new class still have the name (inherited from a remaining base)?"""
+        parent, _, leaf = path.rpartition(".")
+        try:
+            po = c.new.modules_collection.get_member(parent)
+            return po.kind.value == "class" and leaf in po.all_members
+        except Exception:  # noqa: BLE001
+            return False
 
     def interferes(m, acc):
         """Does another edit of the script take away the route on which edit m would be observed?
@@ -1113,11 +1116,11 @@ def evaluate(ctx, c, status, ibs, mstatus, mbs, wf, consistent, exitc, ao, an, l
         hit = [b for b in ibs if b[0] == m["expect"] and b[1] in acc]
         if m["expect"] == "PARAMETER_REMOVED":
             hit = [b for b in ibs if b[0].startswith("PARAMETER_") and b[1] in acc]
+        if not hit and m["expect"] == "OBJECT_REMOVED" and any(still_provided(a) for a in acc):
+            tally["removed_but_still_inherited"] += 1      # on some route the removed class member is still provided by another base class
+            continue
         if not hit:
-            # an enclosing object reported instead (e.g. the class itself re-kinded)?  not for single edits.
-            ctx.property_failure(c.json, {"public incompatible edit not reported": m, "reported": ibs[:6], "acceptable_paths": sorted(acc)[:6]},
-                                 finding=None if consistent else "C11-F2")
-            ctx.observe("unreported", "C11-F2" if not consistent else "UNEXPLAINED")
+            ctx.property_failure(c.json, {"public incompatible edit not reported": m, "reported": ibs[:6], "acceptable_paths": sorted(acc)[:6]})
         else:
             tally["public_incompatible_reported"] += 1
     if all_private and classes <= {"compatible", "incompatible"}:
@@ -1169,13 +1172,11 @@ def ladder_check(ctx):
         if bool(md) != doc_is_public(parent, m):
             ctx.tie_failure("oracle", "is_public_doc(model) vs documented ladder", {"case": desc, "model": md})
         if bool(m.is_public) != doc_is_public(parent, m):
-            ctx.observe("ladder_deviation", "empty-__all__" if desc[1] == [] else "OTHER:" + str(desc))
-            if desc[1] != []:
-                ctx.property_failure({"ladder": [str(x) for x in desc]}, "is_public deviates from its documented ladder")
+            ctx.property_failure({"ladder": [str(x) for x in desc]}, "is_public deviates from its documented ladder")
 
 
 # --------------------------------------------------------------------------------------------------------------------
-# witnesses of the known findings (replayed on the implementation every run)
+# the witnesses of the repaired findings F1, F2, F3: they must now pass (direct evaluation; also part of corpus/C11)
 # --------------------------------------------------------------------------------------------------------------------
 W_F1 = ({"pkg/__init__.py": "from pkg.a import x\n__all__ = ['x']\n", "pkg/a.py": "from pkg.b import x\n", "pkg/b.py": "from pkg.a import x\n"},) * 2
 W_F2 = ({"pkg/__init__.py": "from pkg.a import f\nfrom pkg.a import f as g\n__all__ = ['f', 'g']\n", "pkg/a.py": "def f(x): pass\nclass K: pass\n"},
@@ -1190,13 +1191,20 @@ def witness_diff(ctx, name, files):
     return impl_diff(load_pkg(d / "old"), load_pkg(d / "new"))
 
 
-def witnesses(ctx):
+def regressions(ctx):
     s, b = witness_diff(ctx, "w1", W_F1)
-    ctx.witness("C11-F1", s == "cyclic")
+    if not (s == "ok" and not b):
+        ctx.property_failure({"old": W_F1[0], "new": W_F1[1], "edits": [], "stream": "regression"},
+                             {"a cyclic re-export must be skipped, not abort the comparison of a package with itself": [s, b]})
     s, b = witness_diff(ctx, "w2", W_F2)
-    ctx.witness("C11-F2", s == "ok" and not any(k == "OBJECT_CHANGED_KIND" for k, _, _ in b))
+    if not (s == "ok" and any(k == "OBJECT_CHANGED_KIND" for k, _, _ in b)):
+        ctx.property_failure({"old": W_F2[0], "new": W_F2[1], "edits": ["retarget-reexport"], "stream": "regression"},
+                             {"public re-export pkg.g changed from a function to a class: must be reported": [s, b]})
     s, b = witness_diff(ctx, "w3", W_F3)
-    ctx.witness("C11-F3", s == "ok" and ["OBJECT_REMOVED", "pkg.f", ""] in b)
+    if not (s == "ok" and not b):
+        ctx.property_failure({"old": W_F3[0], "new": W_F3[1], "edits": ["remove-func"], "stream": "regression"},
+                             {"pkg.f is not exported by the empty __all__: its removal must not be reported": [s, b]})
+    ctx.count("regression_witnesses", 3)
 
 
 # --------------------------------------------------------------------------------------------------------------------
@@ -1241,11 +1249,8 @@ def cli_case(ctx, k, c):
         if bool(ibs) and len(reported) != len(ibs):
             ctx.tie_failure("correspondence", "CLI printed a different number of breakages than find_breaking_changes",
                             {"stderr_lines": len(reported), "api": len(ibs), "stderr": p.stderr[-300:]}, dict(c.json, cli=True))
-    elif status == "cyclic":
-        if p.returncode == 0:
-            ctx.property_failure(dict(c.json, cli=True), {"exit code 0 although the comparison aborted": p.stderr[-300:]})
-        else:
-            ctx.property_failure(dict(c.json, cli=True), "griffe check aborted with CyclicAliasError", finding="C11-F1")
+    else:
+        ctx.property_failure(dict(c.json, cli=True), {"find_breaking_changes did not complete": status})
 
 
 # --------------------------------------------------------------------------------------------------------------------
@@ -1302,7 +1307,7 @@ def explore(ctx):
     import logging
     logging.getLogger("griffe").setLevel(logging.CRITICAL)
     tally = Counter()
-    witnesses(ctx)
+    regressions(ctx)
     ladder_check(ctx)
     corpus = []
     for f in sorted((Path(__file__).resolve().parents[2] / "corpus" / "C11").glob("*.json")):
@@ -1319,7 +1324,8 @@ def explore(ctx):
     for k, v in tally.items():
         ctx.count(k, v)
     # the direct checks must not be vacuous
-    for key in ("compatible_scripts", "public_incompatible_reported", "private_only_scripts", "unresolvable_survived"):
+    for key in ("compatible_scripts", "public_incompatible_reported", "private_only_scripts", "unresolvable_survived", "cyclic_survived",
+                "edit_expectations_in_multi_edit_scripts"):
         if not tally[key]:
             ctx.tie_failure("harness", f"degenerate generation: no case exercised `{key}`", dict(tally))
     # CLI exit code
@@ -1343,7 +1349,7 @@ def explore(ctx):
 
 def search(ctx):
     """Implementation vs authority only (no model): identical / compatible scripts must be silent, single public incompatible edits reported,
-    reported objects publicly reachable; known gaps recognised by Python mirrors."""
+    reported objects publicly reachable."""
     import logging
     from collections import Counter
     logging.getLogger("griffe").setLevel(logging.CRITICAL)
@@ -1359,41 +1365,11 @@ def search(ctx):
         status, ibs = impl_diff(c.old, c.new)
         I, pn = Interner(), {}
         ao, an = Abstraction(c.old, I, pn), Abstraction(c.new, I, pn)
-        consistent = py_consistent(c.old, c.new)
-        evaluate_nomodel(ctx, c, status, ibs, consistent, ao, an, tally)
+        evaluate_nomodel(ctx, c, status, ibs, ao, an, tally)
 
 
-def py_consistent(old, new):
-    """Python mirror of `consistent` (Model/C11_apidiff.v) for the same-path counterpart map."""
-    from _griffe.exceptions import AliasResolutionError, CyclicAliasError
-    todo, seen = [(old, new)], set()
-    while todo:
-        o, n = todo.pop()
-        if (o.path, n.path) in seen:
-            continue
-        seen.add((o.path, n.path))
-        if o.is_alias or n.is_alias:
-            try:
-                ot = o.target if o.is_alias else o
-                nt = n.target if n.is_alias else n
-            except (AliasResolutionError, CyclicAliasError):
-                continue
-            if ot.path != nt.path:
-                return False
-            todo.append((ot, nt))
-        elif o.kind is n.kind and o.kind.value in ("module", "class"):
-            nm_ = members_of(n)
-            for name, m in members_of(o).items():
-                if m.is_public and name in nm_:
-                    if nm_[name].path != m.path:
-                        return False
-                    todo.append((m, nm_[name]))
-    return True
-
-
-def evaluate_nomodel(ctx, c, status, ibs, consistent, ao, an, tally):
-    evaluate(ctx, c, status, ibs, {"ok": "ok", "cyclic": "cyclic"}.get(status, status), ibs, 1, consistent,
-             int(status != "ok" or bool(ibs)), ao, an, [], tally)
+def evaluate_nomodel(ctx, c, status, ibs, ao, an, tally):
+    evaluate(ctx, c, status, ibs, status, ibs, 1, int(status != "ok" or bool(ibs)), ao, an, [], tally)
 
 
 def replay(ctx, data):
